@@ -77,7 +77,7 @@ _UNOPS = {"MINUS": "-", "PLUS": "+", "NOT": "not"}
 KNOWN_INTRINSICS = {"ABS", "SIGN", "MAX", "MIN", "MOD", "MODULO", "INT", "REAL",
                     "NINT", "MERGE", "SUM", "PRODUCT", "MAXVAL", "MINVAL",
                     "DOT_PRODUCT", "MATMUL", "SIZE", "LBOUND", "UBOUND",
-                    "TRANSPOSE"}
+                    "TRANSPOSE", "HUGE"}
 
 
 class Exporter:
